@@ -1960,6 +1960,9 @@ class Sim:
         seen = set()
         sub_path = path + label + '.'
         for f, a in pm:
+            fconv = None
+            if f.__class__ is tuple:
+                _, fconv, f = f
             fl = f.lower()
             if fl not in formals:
                 self.issue('unknown-formal', f"{f} in {where}")
@@ -1973,6 +1976,14 @@ class Sim:
             ft = self.mk_type(Env(None, ''), fst, f"formal {f}")
             if a == ('open',):
                 continue
+            if fconv is not None:
+                # type_mark(formal) => actual : the actual sees the converted type (closely related vector types only)
+                if mode == 'in' or fconv.lower() not in VEC_NAME or ft[0] not in VEC_NAME.values():
+                    self.issue('type-error', f"conversion {fconv}({f}) on the formal of {mode} port in {where}")
+                    continue
+                ft_actual = (VEC_NAME[fconv.lower()], ft[1], ft[2])
+            else:
+                ft_actual = ft
             ctx = Sim.Ctx(where, set())
             plain = a[0] == 'id'
             if mode == 'in':
@@ -2001,7 +2012,7 @@ class Sim:
                 if r is None:
                     continue
                 tt, rk, rid, steps = r
-                self.check_assignable(ft, tt, f"port association {f} in {where}")
+                self.check_assignable(ft_actual, tt, f"port association {f} in {where}")
                 inst_driver = ('instance', path, label, f)
                 # every output port of an instance is one source of its actual: model it as its own driver
                 # (a child signal + a copy process) so that the driver analysis sees one driver per formal
